@@ -18,7 +18,7 @@ import copy
 import json
 import os
 
-from .model import walk_no_nested, src
+from .model import walk_no_nested, src, attr_chain
 
 _TABLE = os.path.join(os.path.dirname(os.path.abspath(__file__)), 'tables', 'known_functions.json')
 
@@ -2557,7 +2557,166 @@ def inline_context_managers(prog):
     for m in prog.modules.values():
         for fn in [x for x in ast.walk(m.tree) if isinstance(x, (ast.FunctionDef, ast.AsyncFunctionDef))]:
             fn.body = rewrite(fn.body)
+    if count:
+        # a context manager whose every use was written out is not part of the program any more (if it is not in the reference)
+        tbl = known_table().get('functions', {})
+        refs = set()
+        for m in prog.modules.values():
+            for x in ast.walk(m.tree):
+                if isinstance(x, ast.Attribute):
+                    refs.add(x.attr)
+                elif isinstance(x, ast.Name) and isinstance(x.ctx, ast.Load):
+                    refs.add(x.id)
+        for name, (fn, _, _) in cms.items():
+            if name in refs:
+                continue
+            for m in prog.modules.values():
+                for holder in [m.tree] + [c for c in ast.walk(m.tree) if isinstance(c, ast.ClassDef)]:
+                    if fn in holder.body:
+                        q = m.name + '.' + (holder.name + '.' if isinstance(holder, ast.ClassDef) else '') + name
+                        if q in tbl:
+                            continue
+                        holder.body.remove(fn)
+                        if not holder.body:
+                            holder.body.append(ast.Pass())
     return count
+
+
+def inline_prelude_decorators(prog):
+    """A decorator of the program that only runs some statements before handing over to the method it decorates,
+
+        def D(p, *ps):
+            def decorator(method):
+                @wraps(method)
+                def wrapper(self, *args, **kwargs):      (or the method's own parameter list)
+                    PRE
+                    return method(self, *args, **kwargs)
+                return wrapper
+            return decorator
+
+    is those statements at the top of every `@D(args)` method, with the decorator's parameters replaced by its arguments; comprehensions
+    over the (now literal) argument tuple are written out and `Enum['NAME']` is `Enum.NAME`.  Returns the decorated functions rewritten."""
+    decos = {}
+    tblf = known_table().get('functions', {})
+    for m in prog.modules.values():
+        for st in m.tree.body:
+            if not isinstance(st, ast.FunctionDef) or st.decorator_list or (m.name + '.' + st.name) in tblf:
+                continue
+            body = _strip_doc(st.body)
+            if not (len(body) == 2 and isinstance(body[0], ast.FunctionDef) and isinstance(body[1], ast.Return)
+                    and isinstance(body[1].value, ast.Name) and body[1].value.id == body[0].name):
+                continue
+            deco = body[0]
+            if len(deco.args.args) != 1 or deco.args.vararg or deco.args.kwarg:
+                continue
+            mname = deco.args.args[0].arg
+            db = _strip_doc(deco.body)
+            if not (len(db) == 2 and isinstance(db[0], ast.FunctionDef) and isinstance(db[1], ast.Return)
+                    and isinstance(db[1].value, ast.Name) and db[1].value.id == db[0].name):
+                continue
+            wrap = db[0]
+            if any(src(d.func if isinstance(d, ast.Call) else d).split('.')[-1] != 'wraps' for d in wrap.decorator_list):
+                continue
+            wb = _strip_doc(wrap.body)
+            if not wb or not wrap.args.args:
+                continue
+            last = wb[-1]
+            call = last.value if isinstance(last, (ast.Return, ast.Expr)) else None
+            if not (isinstance(call, ast.Call) and isinstance(call.func, ast.Name) and call.func.id == mname):
+                continue
+            # the hand-over passes the wrapper's own parameters on, unchanged and in order
+            wparams = [a.arg for a in wrap.args.posonlyargs + wrap.args.args]
+            passed = []
+            for a in call.args:
+                passed.append(a.value.id if isinstance(a, ast.Starred) and isinstance(a.value, ast.Name) else a.id if isinstance(a, ast.Name) else None)
+            for k in call.keywords:
+                passed.append(k.value.id if k.arg is None and isinstance(k.value, ast.Name) else None)
+            expect = wparams + ([wrap.args.vararg.arg] if wrap.args.vararg else []) + ([wrap.args.kwarg.arg] if wrap.args.kwarg else [])
+            if passed != expect or wrap.args.kwonlyargs:
+                continue
+            pre = wb[:-1]
+            forbidden = set(expect[1:]) | {mname, wrap.name, deco.name}
+            if any(isinstance(x, ast.Name) and x.id in forbidden for b in pre for x in ast.walk(b)) \
+                    or any(isinstance(x, (ast.Return, ast.Yield, ast.YieldFrom, ast.Await, ast.FunctionDef, ast.Lambda)) for b in pre for x in ast.walk(b)):
+                continue
+            decos[st.name] = (st, wparams[0], pre, isinstance(last, ast.Expr))
+    if not decos:
+        return []
+    done = []
+    for m in prog.modules.values():
+        for fn in [x for x in ast.walk(m.tree) if isinstance(x, ast.FunctionDef)]:
+            keep = []
+            for d in fn.decorator_list:
+                name = src(d.func).split('.')[-1] if isinstance(d, ast.Call) else None
+                if name not in decos or d.keywords or any(isinstance(a, ast.Starred) for a in d.args) or not fn.args.args:
+                    keep.append(d)
+                    continue
+                st, wself, pre, drops_result = decos[name]
+                if drops_result and any(isinstance(x, ast.Return) and x.value is not None for x in walk_no_nested(fn)):
+                    keep.append(d)
+                    continue
+                params = [a.arg for a in st.args.posonlyargs + st.args.args]
+                if len(d.args) < len(params) or (len(d.args) > len(params) and not st.args.vararg) or st.args.kwarg or st.args.kwonlyargs:
+                    keep.append(d)
+                    continue
+                sub = dict(zip(params, d.args))
+                if st.args.vararg:
+                    sub[st.args.vararg.arg] = ast.Tuple(elts=list(d.args[len(params):]), ctx=ast.Load())
+                sub[wself] = ast.Name(id=fn.args.args[0].arg, ctx=ast.Load())
+                new = [_LiteralComprehensions().visit(_Subst(sub, {}).visit(copy.deepcopy(b))) for b in pre]
+                new = [_EnumByName(prog, m).visit(b) for b in new]
+                for b in new:
+                    ast.copy_location(b, fn.body[0])
+                    ast.fix_missing_locations(b)
+                    for x in ast.walk(b):
+                        if hasattr(x, 'lineno'):
+                            x.lineno = fn.body[0].lineno
+                k = 1 if fn.body and isinstance(fn.body[0], ast.Expr) and isinstance(fn.body[0].value, ast.Constant) else 0
+                fn.body[k:k] = new
+                done.append(fn.name)
+            fn.decorator_list = keep
+    if done:
+        used = {src(d.func).split('.')[-1] for m in prog.modules.values() for fn in ast.walk(m.tree) if isinstance(fn, ast.FunctionDef)
+                for d in fn.decorator_list if isinstance(d, ast.Call)}
+        for name, (st, _, _, _) in decos.items():
+            if name not in used:
+                for m in prog.modules.values():
+                    if st in m.tree.body:
+                        m.tree.body.remove(st)
+    return done
+
+
+class _LiteralComprehensions(ast.NodeTransformer):
+    """[f(x) for x in ('a', 'b')] -> [f('a'), f('b')] for comprehensions over a literal tuple of constants"""
+
+    def visit_ListComp(self, node):
+        self.generic_visit(node)
+        if len(node.generators) == 1 and not node.generators[0].ifs and isinstance(node.generators[0].target, ast.Name) \
+                and isinstance(node.generators[0].iter, (ast.Tuple, ast.List)) and all(isinstance(e, ast.Constant) for e in node.generators[0].iter.elts):
+            v = node.generators[0].target.id
+            return ast.copy_location(ast.List(elts=[_Subst({v: e}, {}).visit(copy.deepcopy(node.elt)) for e in node.generators[0].iter.elts],
+                                              ctx=ast.Load()), node)
+        return node
+
+    visit_GeneratorExp = visit_ListComp
+
+
+class _EnumByName(ast.NodeTransformer):
+    """Enum['NAME'] -> Enum.NAME"""
+
+    def __init__(self, prog, module):
+        self.prog, self.module = prog, module
+
+    def visit_Subscript(self, node):
+        self.generic_visit(node)
+        if isinstance(node.slice, ast.Constant) and isinstance(node.slice.value, str) and node.slice.value.isidentifier() and attr_chain(node.value):
+            try:
+                c = self.prog.resolve_class_expr(node.value, self.module, None)
+            except Exception:
+                c = None
+            if c is not None and self.prog.is_enum(c) and node.slice.value in c.attrs:
+                return ast.copy_location(ast.Attribute(value=node.value, attr=node.slice.value, ctx=node.ctx), node)
+        return node
 
 
 def fold_generated_tables(prog):
@@ -3362,6 +3521,10 @@ class Inliner:
         k = inline_context_managers(prog)
         if k:
             self.report['context_managers'] = k
+            prog.reindex()
+        k = inline_prelude_decorators(prog)
+        if k:
+            self.report['prelude_decorators'] = k
             prog.reindex()
         self.report['generated_tables'] = fold_generated_tables(prog)
         if self.report['generated_tables']:
